@@ -11,7 +11,6 @@ from sa.sm import call_kw, dotted, find_calls, norm
 
 from . import common
 from .c05 import check_counter, check_first_def
-from .c06 import check_rl_rows
 
 
 def run(ctx: Ctx):
@@ -54,21 +53,23 @@ def run(ctx: Ctx):
         ctx.check(ok, "R07.a", f.key("stiff-set-source"), f"{sname} = set(stiff_states)", f"the stiff set `{sname}` is not built as set(stiff_states): {norm(src) if src is not None else None}", f.where())
         none_ok = any(k.startswith("if:stiff_states is None:stiff_states") for k in m.pre) or "stiff_states or" in (norm(src) if src is not None else "")
         ctx.check(none_ok, "R07.a", f.key("none-means-empty"), "stiff_states=None means no stiff state", "stiff_states=None is not mapped to the empty collection before the set is built", f.where())
-    # rows
+    # rows: the hybrid builder is compared with its two siblings *of the same tree* (if generalized RL itself is
+    # wrong that is C06's finding; C07 only asks that hybrid equals it on the stiff states and equals Euler elsewhere)
     euler = models.get(table.get("explicit_euler", ""), None)
     grl = models.get(table.get("generalized_rush_larsen", ""), None)
-    euler_terms = {r.store[1] for r in euler.rows if r.store} if euler else set()
-    grl_terms = {}
+    euler_rows = [r for r in (euler.rows if euler else []) if r.store is not None]
+    euler_term = euler_rows[0].store[1] if euler_rows else S.EULER
+    grl_rows = {}
     if grl:
         for r in grl.rows:
-            l = dict(S.normalise_lits(r.lits))
-            if r.store and l.get("DIFF_ZERO") is False:
-                grl_terms[l.get("NEED_GUARD")] = r.store[1]
+            l = S.normalise_lits(r.lits)
+            if r.store is not None and dict(l).get("ISDERIV") and dict(l).get("DIFF_ZERO") is False:
+                grl_rows[frozenset(l)] = r
     deriv_rows = [r for r in m.rows if dict(S.normalise_lits(r.lits)).get("ISDERIV")]
-    rl_rows = []
     cases = set()
     for r in deriv_rows:
-        l = dict(S.normalise_lits(r.lits))
+        lset = S.normalise_lits(r.lits)
+        l = dict(lset)
         stiff = [v for k, v in l.items() if k.startswith("STIFF[")]
         stiff = stiff[0] if stiff else None
         dz = l.get("DIFF_ZERO")
@@ -78,38 +79,46 @@ def run(ctx: Ctx):
             continue
         if stiff is False or dz is True:
             cases.add("euler")
-            okk = r.store is not None and r.store[1] == S.EULER and (not euler_terms or r.store[1] in euler_terms)
+            okk = r.store is not None and r.store[1] == euler_term
             ctx.check(
                 okk,
                 "R07.a",
                 key,
                 "non-stiff (or identically-zero derivative): the explicit Euler term",
-                f"{f.name} path [{r.raw_pred}] stores {te.show(r.store[1]) if r.store else None}; expected the explicit Euler update {te.show(S.EULER)}",
+                f"{f.name} path [{r.raw_pred}] stores {te.show(r.store[1]) if r.store else None}; explicit_euler stores {te.show(euler_term)} for the same state",
                 f.where(r.store[2]) if r.store else f.where(m.loop),
             )
         elif stiff is True and dz is False:
             cases.add("rl")
-            rl_rows.append(r)
-            ng = l.get("NEED_GUARD")
-            if grl_terms and r.store is not None and ng in grl_terms:
-                ctx.check(
-                    r.store[1] == grl_terms[ng],
-                    "R07.a",
-                    f.key(f"clone::{sorted(l.items())}"),
-                    "stiff branch is term-identical to generalized_rush_larsen",
-                    f"{f.name} path [{r.raw_pred}] stores {te.show(r.store[1])} but generalized_rush_larsen stores {te.show(grl_terms[ng])} in the same case: the duplicated formula has drifted",
-                    f.where(r.store[2]),
-                )
+            rest = frozenset((k, v) for k, v in lset if not k.startswith("STIFF["))
+            sib = grl_rows.get(rest)
+            if sib is None:
+                ctx.fail("R07.a", key, f"{f.name} path [{r.raw_pred}]: generalized_rush_larsen has no path with the same conditions {sorted(rest)}; the stiff branch is not a copy of it", f.where(r.store[2]) if r.store else f.where(m.loop))
+                continue
+            same_store = r.store is not None and r.store[1] == sib.store[1]
+            defs_h = [(a, b) for a, b, _ in r.emissions[: r.store[3]]] if r.store else []
+            defs_g = [(a, b) for a, b, _ in sib.emissions[: sib.store[3]]]
+            ctx.check(
+                same_store and defs_h == defs_g,
+                "R07.a",
+                f.key(f"clone::{sorted(l.items())}"),
+                "stiff branch is term-identical to generalized_rush_larsen (definitions and stored term)",
+                f"{f.name} path [{r.raw_pred}] emits {[te.show(a) + ' := ' + te.show(b) for a, b in defs_h]} and stores {te.show(r.store[1]) if r.store else None}; generalized_rush_larsen emits {[te.show(a) + ' := ' + te.show(b) for a, b in defs_g]} and stores {te.show(sib.store[1])} in the same case: the duplicated formula has drifted",
+                f.where(r.store[2]) if r.store else f.where(m.loop),
+            )
         else:
             ctx.fail("R07.a", key, f"{f.name} path [{r.raw_pred}]: a stiff state reaches the update without the identically-zero test of its own-state derivative", f.where(m.loop))
-    check_rl_rows(ctx, "R07.a", m, rl_rows, "hybrid-rl")
     for c in ("euler", "rl"):
         ctx.check(c in cases, "R07.a", f.key(f"has-{c}-case"), f"{c} case present", f"{f.name} has no {c} path", f.where())
+    if grl:
+        seen = {frozenset((k, v) for k, v in S.normalise_lits(r.lits) if not k.startswith("STIFF[")) for r in deriv_rows if dict(S.normalise_lits(r.lits)).get("DIFF_ZERO") is False and any(k.startswith("STIFF[") and v for k, v in S.normalise_lits(r.lits))}
+        for k in grl_rows:
+            ctx.check(k in seen, "R07.a", f.key(f"covers::{sorted(k)}"), "every generalized-RL case has its hybrid counterpart", f"{f.name} has no stiff path for the generalized-RL case {sorted(k)}", f.where())
 
     ctx.rule("R07.b", "stiff_states reaches hybrid_rush_larsen only, from get_code through add_schemes", floor=4)
     add = sm.func("cli/utils.py", "add_schemes")
     common.check_scheme_kwargs(ctx, "R07.b", "stiff_states")
-    common.check_scheme_kwargs(ctx, "R07.b", "delta")
+    common.check_scheme_kwargs(ctx, "R07.b", "delta", only_builders={name})
     ctx.check("stiff_states" in f.params, "R07.b", f.key("param"), "hybrid builder has a stiff_states parameter", "hybrid_rush_larsen has no stiff_states parameter", f.where())
     others = [mm.func.name for nm, mm in models.items() if nm != name and "stiff_states" in mm.func.params]
     ctx.check(not others, "R07.b", f.key("only-hybrid"), "no other builder takes stiff_states", f"other builders take stiff_states: {others}", f.where())
